@@ -85,9 +85,14 @@ def generate(seed, prop):
             stem = "rec %d-%s" % (i, rng.choice(["x", "y"]))            # a space and a dash
         files.append({"stem": stem, "rate": rate,
                       "n": int(rate * dur) + 1, "k": rng.randrange(1 << 30)})
+        if rng.random() < 0.3:
+            # a SESAME ASCII file: the only CLI input that carries its own sensor orientation
+            files[-1]["saf_rot"] = rng.choice([None, 0, 40, 90.5, 200])
+            if files[-1]["n"] > 60000:
+                files[-1]["n"] = int(rate * wl * 2) + 1
     pre = {"window_length_in_seconds": wl, "detrend": rng.choice(["linear", "constant"]),
            "filter": rng.choice([[None, None], [None, None], [0.2, None], [0.2, 20.0], [None, 24.0], [0.5, 40.0]]),
-           "orient": rng.choice([0.0, 30.0])}
+           "orient": rng.choice([0.0, 30.0, None, None])}     # None: leave every sensor as deployed
     proc = draw_processing(rng)
     order = list(range(n_files))
     rng.shuffle(order)
@@ -118,16 +123,25 @@ def write_inputs(d, world):
             n, rate = f["n"], f["rate"]
             t = np.arange(n) / rate
             trs = []
+            comps = {}
             for j, ch in enumerate(["BHN", "BHE", "BHZ"]):
                 x = g.normal(0, 1000, n) + (3000.0 if j < 2 else 800.0) * np.sin(2 * np.pi * (1.7 + 0.2 * j) * t)
+                comps["NEZ"[j]] = np.round(x).astype(np.int32)
                 tr = Trace(data=np.round(x).astype(np.int32))
                 tr.stats.sampling_rate = float(rate)
                 tr.stats.channel = ch
                 tr.stats.station = "S"
                 tr.stats.starttime = UTCDateTime(2020, 1, 1)
                 trs.append(tr)
-            p = os.path.join(d, f["stem"] + ".mseed")
-            Stream(trs).write(p, format="MSEED")
+            if "saf_rot" in f:
+                from . import formats as F
+                (name, blob), = F.encode_saf({"rate": rate, "n": n, "north_rot": f["saf_rot"]}, comps, f["stem"])[0]
+                p = os.path.join(d, name)
+                with open(p, "wb") as fh:
+                    fh.write(blob)
+            else:
+                p = os.path.join(d, f["stem"] + ".mseed")
+                Stream(trs).write(p, format="MSEED")
             paths[f["stem"]] = p
     pre = world["pre"]
     ps = H.HvsrPreProcessingSettings(orient_to_degrees_from_north=pre["orient"],
